@@ -182,10 +182,13 @@ pub struct World {
     /// Session Expiry Interval requested in CONNECT
     pub sei: Option<u32>,
     pub reconnects: u32,
+    /// PRNG walks: vary the size of inbound messages (see `in_publish`)
+    pub size_mix: bool,
 }
 
 #[derive(Default, Clone, Debug)]
 pub struct Counters {
+    pub sized_inbound: u64,
     pub acks_delivered: u64,
     pub acks_matched: u64,
     pub completions_checked: u64,
@@ -309,6 +312,7 @@ impl World {
             quota_fuzzy: false,
             sei: cfg.sei,
             reconnects: 0,
+            size_mix: false,
             confirmed_inbound: 0,
         };
         if w.connack_sum.is_none() {
@@ -622,7 +626,17 @@ impl World {
 
     /// Injects a PUBLISH. `subids` are carried as Subscription Identifier properties.
     pub fn in_publish(&mut self, qos: u8, id: u16, dup: bool, subids: &[u32], retain: bool) {
-        self.in_publish_full(qos, id, dup, subids, retain, None)
+        // with `size_mix` every fourth inbound message has a payload size taken from around the client's buffer steps
+        let size = if self.size_mix && self.inbound_seq % 4 == 3 {
+            const SIZES: [usize; 12] = [0, 1, 120, 500, 513, 1024, 1500, 4090, 4097, 5000, 9000, 20_000];
+            Some(SIZES[(self.inbound_seq / 4 + self.m.len()) % SIZES.len()])
+        } else {
+            None
+        };
+        if size.is_some() {
+            self.counters.sized_inbound += 1;
+        }
+        self.in_publish_full(qos, id, dup, subids, retain, size)
     }
 
     /// PUBLISH with a payload of exactly `size` bytes (marker first, then filler).
